@@ -99,10 +99,12 @@ def generate_sink(seed, rng):
             ops.append(['select', rng.randrange(1 << 16)])
         elif r < 0.37:
             ops.append(['list'])
+        elif r < 0.39:
+            ops.append(['select_bad'])       # a rejected `connection` command: what is being looked at stays as it was
         else:
             ops.append(['msg', rng.randrange(nid)])
     cfg = {'kind': 'sink', 'nconn': nid, 'sides': ['client'], 'dialect': 'v1.18', 'epoch_us': 0, 'synth': False,
-           'per_incarnation': rng.randint(3, 12)}
+           'per_incarnation': rng.randint(3, 12), 'break_all': rng.random() < 0.4}
     return {'prop': ID, 'seed': seed, 'config': cfg, 'intents': [], 'sink_ops': ops}
 
 
@@ -449,7 +451,8 @@ def execute_sink(sc, post=None):
     out = t['Output'](False, True, t['RecStream'](rec, 'out'), t['RecStream'](rec, 'err'))
     t['protocol'].load_all(out)
     cm = t['ConnectionManager']()
-    ctl = t['Controller'](out, cm, t['matcher'].always, t['matcher'].never)
+    # (with break_all every message is also a breakpoint hit: like the live view, a hit belongs to the connection being looked at)
+    ctl = t['Controller'](out, cm, t['matcher'].always, t['matcher'].always if cfg.get('break_all') else t['matcher'].never)
     tr = track.Tracker(rec)
     cm.add_connection_list_listener(tr.make(), True)
     # each incarnation of an identifier gets its own fresh single-connection world history
@@ -506,6 +509,9 @@ def execute_sink(sc, post=None):
                     ctl.process_command('connection ' + (model_all[k][0] if op[1] & 1024 else model_all[k][0].lower()))
                     selected = model_all[k][0]
                 V.bump('sink_select')
+            elif op[0] == 'select_bad':
+                ctl.process_command('connection nosuch')
+                V.bump('sink_select_rejected')
             elif op[0] == 'list':
                 mark = rec.seq
                 ctl.process_command('connection')
@@ -530,8 +536,18 @@ def execute_sink(sc, post=None):
                 e[5] += 1
                 e[3] += 1
                 _, m = t['parse'].message(text)
+                mark = rec.seq
                 cm.message(ident, m)
                 V.bump('sink_msg')
+                got_out = [L.classify(s_, p_) for s_, k_, p_ in rec.events if k_ == 'out' and s_ >= mark]
+                n_shown = sum(1 for o_ in got_out if o_.kind == 'msg')
+                n_stop = sum(1 for o_ in got_out if o_.kind == 'other' and o_.text.startswith(L.STOPPED_PREFIX))
+                visible = selected is None or selected == e[0]
+                if n_shown != (1 if visible else 0) or n_stop != (1 if visible and cfg.get('break_all') else 0):
+                    V.add('C04/isolation', 'view', 'a message on connection %s while looking at %s produced %d message lines and %d breakpoint notices'
+                          % (e[0], selected or 'all connections', n_shown, n_stop))
+                if not visible:
+                    V.bump('probe_message_on_connection_not_looked_at')
     except Exception as ex:  # noqa
         exc = ex
         V.add('C04/routing', 'exception:' + type(ex).__name__, traceback.format_exc()[-1500:])
